@@ -45,6 +45,7 @@ class InitExec:
         self.attrs = {}
         self.raises = []
         self.memoize = True
+        self.reads = []             # state paths subscripted in __init__ (KeyError when missing)
         self.switch = None          # (path, {const: attrs}, else_raises)
 
     # -- driver --------------------------------------------------------------------------------
@@ -211,7 +212,10 @@ class InitExec:
             base = self.ev(e.value, env)
             key = self.ev(e.slice, env)
             if base.get("tag") == "state" and key.get("tag") == "const" and not base.get("optional"):
-                return S("state", path=base["path"] + [key["value"]])
+                p = base["path"] + [key["value"]]
+                if p not in self.reads:
+                    self.reads.append(p)
+                return S("state", path=p)
             return S("index", base=base, key=key)
         if isinstance(e, ast.Dict):
             return S("dict", items=[[self.ev(k, env), self.ev(v, env)] for k, v in zip(e.keys, e.values)])
@@ -396,14 +400,20 @@ def trust_mode(T):
 def summarize_init(cls):
     x = InitExec(cls).run()
     out = dict(cls=f"{cls.__module__}.{cls.__qualname__}", memoize=x.memoize, init_effects=list(x.effects),
-               raises=x.raises, always_raises=bool(x.always_raises))
+               raises=x.raises, always_raises=bool(x.always_raises), reads=list(x.reads))
     if x.always_raises:
         out.update(trust=dict(mode="callerPlus", defaults=[]), variants=[], else_raises=True, other_attrs=[],
                    names=dict(module_name=dict(src="state", path=["__module__"]), class_name=dict(src="state", path=["__class__"])))
         return out
     tr = x.attrs.get("trusted")
     owner_mod = cls.__module__
-    if tr is None or tr.get("tag") != "T":
+    if tr is not None and tr.get("tag") in ("list", "tuple") and all(x.get("tag") in ("const", "add", "global", "pure") for x in tr["items"]):
+        # a literal list: the loader ignores the caller's trusted list
+        try:
+            out["trust"] = dict(mode="fixed", defaults=default_names(tr, owner_mod))
+        except Exception as ex:
+            out["trust"] = dict(mode="unknown", src=str(ex))
+    elif tr is None or tr.get("tag") != "T":
         out["trust"] = dict(mode="unknown", src=json.dumps(tr, default=str)[:200])
         defaults = []
     else:
@@ -702,6 +712,9 @@ class ConstructUses:
         if len(args) >= 2 and args[0][0] == "childname" and args[1][0] == "childname" and args[0][1] == args[1][1] \
                 and (args[0][2], args[1][2]) == ("module_name", "class_name"):
             return dict(src="child", key=args[0][1])
+        if len(args) >= 2 and all(a[0] == "index" and a[1][0] == "childnode" and a[2][0] == "const" for a in args[:2]) \
+                and args[0][1][1] == args[1][1][1]:
+            return dict(src="rawpaths", key=args[0][1][1], m=args[0][2][1], c=args[1][2][1])
         if len(args) >= 2 and args[0][0] == "const":
             return dict(src="raw", m=args[0][1], desc=str(args[1])[:120])
         return dict(src="raw", m=None, desc=str(args)[:160])
